@@ -769,6 +769,19 @@ func (fr *Frame) makeIface(v Val, ct types.Type, it types.Type, st *State) Val {
 		if len(v.L) == 0 {
 			unsup("address of global in interface")
 		}
+		// an object handed out behind an interface must satisfy its invariants
+		for _, tgt := range ex.P.invTargets(ex, v, ct) {
+			env := ex.newEnv(st, st, fr)
+			env.pkg = tgt.tn[:strings.Index(tgt.tn, ".")]
+			env.vars["this"] = tgt.v
+			for ci, c := range tgt.cs {
+				lbl := c.Label
+				if lbl == "" {
+					lbl = fmt.Sprintf("%d", ci)
+				}
+				fr.oblige(st, "typeinv", fmt.Sprintf("box %s/%s", tgt.tn, lbl), Implies(Ne(v.L[0], Int(0)), safeEval(env, c)), 0)
+			}
+		}
 		return Val{T: it, L: []Term{tag, v.L[0]}}
 	case *types.Map, *types.Chan, *types.Signature:
 		return Val{T: it, L: []Term{tag, v.L[0]}}
